@@ -41,7 +41,10 @@ fn main() {
                 }
             }
         }
-        Some("replay") => props::replay(args.get(2).map(|s| s.as_str()).unwrap_or("")),
+        Some("replay") => {
+            util::start_watchdog("replay", "", 30);
+            props::replay(args.get(2).map(|s| s.as_str()).unwrap_or(""))
+        }
         Some("path") => {
             let suite = args.get(2).cloned().unwrap_or_default();
             let hist: Vec<u16> = args
@@ -58,11 +61,13 @@ fn main() {
         Some("c20-inner") => props::c20::inner(&args[2..]),
         Some("c19-case") => props::c19::debug_case(args[2].parse().unwrap(), args[3].parse().unwrap(), &args[4]),
         Some("c17-worker") => props::c17::worker(&args[2..]),
-        Some("suite") => props::run_suite(
+        Some("suite") => {
+            util::start_watchdog("debug", "", 30);
+            props::run_suite(
             args.get(2).map(|s| s.as_str()).unwrap_or(""),
             args.get(3).and_then(|s| s.parse().ok()).unwrap_or(3),
             args.get(4).and_then(|s| s.parse().ok()).unwrap_or(60.0),
-        ),
+        )}
         _ => {
             eprintln!("usage: fv check <Cxx> <quick|thorough> | replay <file> | path <suite> <hist> | smoke");
             2
